@@ -118,6 +118,7 @@ fn main() {
                 "c06par" => c06::child_par(&rest),
                 "c12" => c12::child(&rest),
                 "c14mle" => c14::child_mle(&rest),
+                "c14mismatch" => c14::child_mismatch(&rest),
                 "c18" => c18::child(&rest),
                 "c20dump" => c20::child_dump(&rest),
                 "c20reload" => c20::child_reload(&rest),
